@@ -327,21 +327,41 @@ impl C18 {
         let stream_t = "totality";
         let stream_f = "format_laws";
         let stream_m = "parse_model";
-        // Before fix C18-a the lexer loses track of its position after a `\u` that is not
-        // followed by `{` (the character after it is consumed without being counted): the
-        // model describes the repaired lexer, so differences on such texts are attributed.
-        let desync = {
-            let cs: Vec<char> = text.chars().collect();
-            (0..cs.len()).any(|i| cs[i] == '\\' && cs.get(i + 1) == Some(&'u') && cs.get(i + 2) != Some(&'{'))
-        };
-        let attr = if desync { " [text has \\u without {: lexer position desync, C18-a]" } else { "" };
         let h = caught(|| parse_h(text));
         let v = caught(|| parse_v(text));
         let f = caught(|| real_format(text));
+        // Before fix C18-a a malformed `\u` escape (anything but `\u{hex*}`) is silently
+        // accepted, and the lexer and its bracket pre-pass can disagree about where the string
+        // ends (a `\u` not followed by `{` even loses track of the byte position). The model
+        // describes the repaired lexer (an UnknownEscapeSequence error), so panics and
+        // model differences on such texts are attributed.
+        let malformed_u = {
+            let cs: Vec<char> = text.chars().collect();
+            (0..cs.len()).any(|i| {
+                if !(cs[i] == '\\' && cs.get(i + 1) == Some(&'u')) {
+                    return false;
+                }
+                if cs.get(i + 2) != Some(&'{') {
+                    return true;
+                }
+                let mut j = i + 3;
+                while cs.get(j).map(|c| c.is_ascii_hexdigit()).unwrap_or(false) {
+                    j += 1;
+                }
+                if cs.get(j) != Some(&'}') {
+                    return true;
+                }
+                // well-formed syntax, but not a scalar value (silently dropped before the fix)
+                let hex: String = cs[i + 3..j].iter().collect();
+                let v = if hex.is_empty() { Some(0) } else { u32::from_str_radix(&hex, 16).ok() };
+                v.and_then(char::from_u32).is_none()
+            })
+        };
+        let attr = if malformed_u { " [text has a malformed \\u escape, C18-a]" } else { "" };
         for (what, r) in [("parse_h", h.as_ref().err()), ("parse_v", v.as_ref().err()), ("format", f.as_ref().err())] {
             if let Some(p) = r {
                 out.tag(format!("{what}:panic"));
-                out.fail(Kind::ImplPanic, stream_t, format!("panic {}", strip_msg(p)), format!("{what}: {p}"));
+                out.fail(Kind::ImplPanic, stream_t, format!("panic {}{attr}", strip_msg(p)), format!("{what}: {p}"));
             }
         }
         match &h {
